@@ -41,14 +41,14 @@ CLAIMED['C20'] = dict(
          'key tables PINNED from the current source): it equals the documented per-tree pipeline — one output graph per input graph in order, blank-line framing, n files = '
          'their concatenation (F18), exit status iff --check finds errors, failure iff a stage, a parse or a key lookup fails; formatting options do not change the formatted '
          'tree, its tokens or the status; byte idempotence is proved for streams with no normalisation option, for --canonicalize-roles alone, and (Properties/C20b.v) for --rearrange with any pure keys, '
-         '--make-variables with an indexed format, and both together; for --reify-edges / --reify-attributes with or without --canonicalize-roles (Properties/C20c.v) it is proved under a DECIDABLE '
-         'certificate on what the first pass wrote (well formed, a layout tree, nothing reifiable / no attribute left after interpretation), which the harness evaluates through the extracted model on every '
-         'case of that option family (97 % of generated cases are certified; the certificate is false on the machine-checked F30 and F32 witnesses); both reifications are idempotent at graph level; '
+         '--make-variables with an indexed format, and both together; for --reify-edges / --dereify-edges / --reify-attributes — with --canonicalize-roles, or with --rearrange and/or --make-variables — (Properties/C20c.v) it is proved under DECIDABLE '
+         'certificates on what the first pass wrote (well formed, a layout tree, C10 provisos for the new names, nothing reifiable / collapsible / no attribute left after interpretation), which the harness evaluates through the extracted '
+         'definitions on every case of that option family (about 90 % of generated cases are certified; the certificate is false on the machine-checked F30, F32 and F33 witnesses); both reifications are idempotent at graph level; '
          'it is reduced to a per-tree fixed point for every other non-triples option set. The tool itself (real subprocesses + main() in workers) is compared byte-for-byte and by exit status with the '
          'extracted model AND with an independent reference pipeline written from docs/command.rst, plus second-pass idempotence, content and format-invariance oracles.',
     design_ref='DESIGN.md §5 C20',
-    note=TB + ' partial: idempotence of option sets containing --dereify-edges, --indicate-branches or --reconfigure, of the reify options combined with --rearrange / --make-variables, and of reify-option '
-         'runs whose first-pass output fails the certificate is covered only by the oracle (3000 + 500 runs quick, 40000 + 5000 thorough) — the two exceptions found are the open known findings F30 and F32; the model starts after argparse (-q/-v, encodings, file I/O, the random key '
+    note=TB + ' partial: idempotence of --canonicalize-roles combined with --rearrange / --make-variables, and of reify-option '
+         'runs whose first-pass output fails the certificates is covered only by the oracle (--reconfigure and --indicate-branches are excluded by the property itself) (3000 + 500 runs quick, 40000 + 5000 thorough) — the exceptions found are the open known findings F30, F32 and F33; the model starts after argparse (-q/-v, encodings, file I/O, the random key '
          'are outside; on failing runs only "fails" is compared); idempotence is checked under C10\'s proviso (no constant spelled like a new variable) and for well-formed input.',
     technique='Coq proof (CLI plumbing = documented pipeline; pinned key tables) + differential correspondence with python -m penman + reference-pipeline and idempotence oracles',
 )
